@@ -37,38 +37,38 @@ func main() {
 		case "std":
 			genStd(cw, *seed, *tier)
 		case "c01":
-		genC01(cw, *seed, *tier)
-	case "c02":
-		genC02(cw, *seed, *tier)
-	case "c16":
-		genC16(cw, *seed, *tier)
-	case "c19":
-		genC19(cw, *seed, *tier)
-	case "c13":
-		genC13(cw, *seed, *tier)
-	case "c05":
-		genC05(cw, *seed, *tier)
-	case "c14":
-		genC14(cw, *seed, *tier)
-	case "c15":
-		genC15(cw, *seed, *tier)
-	case "c20":
-		genC20(cw, *seed, *tier)
-	case "c18":
-		genC18(cw, *seed, *tier)
-	case "c17":
-		genC17(cw, *seed, *tier)
-	case "c07":
-		genC07(cw, *seed, *tier)
-	case "c08":
-		genC08(cw, *seed, *tier)
-	case "scan":
-		genScan(cw, *seed, *tier)
-	case "c03":
-		genC03(cw, *seed, *tier)
-	case "c04":
-		genC04(cw, *seed, *tier)
-	case "c10":
+			genC01(cw, *seed, *tier)
+		case "c02":
+			genC02(cw, *seed, *tier)
+		case "c16":
+			genC16(cw, *seed, *tier)
+		case "c19":
+			genC19(cw, *seed, *tier)
+		case "c13":
+			genC13(cw, *seed, *tier)
+		case "c05":
+			genC05(cw, *seed, *tier)
+		case "c14":
+			genC14(cw, *seed, *tier)
+		case "c15":
+			genC15(cw, *seed, *tier)
+		case "c20":
+			genC20(cw, *seed, *tier)
+		case "c18":
+			genC18(cw, *seed, *tier)
+		case "c17":
+			genC17(cw, *seed, *tier)
+		case "c07":
+			genC07(cw, *seed, *tier)
+		case "c08":
+			genC08(cw, *seed, *tier)
+		case "scan":
+			genScan(cw, *seed, *tier)
+		case "c03":
+			genC03(cw, *seed, *tier)
+		case "c04":
+			genC04(cw, *seed, *tier)
+		case "c10":
 			genC10(cw, *seed, *tier)
 		case "c11":
 			genC11(cw, *seed, *tier)
